@@ -391,7 +391,7 @@ static PER_CASE: std::sync::Mutex<Vec<String>> = std::sync::Mutex::new(Vec::new(
 fn eval(run: &Run, fx: &Arc<Fixture>, c: &Cfg) -> Verdict {
     let live = vkit::scratch::Dir::new("c12live");
     let (fx2, live2, cfg) = (fx.clone(), live.path().to_owned(), c.clone());
-    let secs = if run.quick() { 40.0 } else { 1200.0 };
+    let secs = if run.quick() { 30.0 } else { 1200.0 };
     let t0 = Instant::now();
     if c.schedule.is_some() && std::env::var("VSCHED_TRACE").is_ok() {
         gix_features::verif_sched::TRACE.store(true, std::sync::atomic::Ordering::Relaxed);
@@ -490,6 +490,23 @@ pub fn run(run: &'static Run) {
             add("pack-loose", false, vec![vec![f(2)], vec![has(2)]], vec![false, false], vec![false, false], bound.min(1));
             add("midx-repack", true, vec![vec![f(0)], vec![f(1)]], vec![false, true], vec![false, false], bound.min(1));
         }
+    }
+    if q {
+        // quick: everything at bound 0; at bound 1 one reader variant per history and two of the two-reader cases;
+        // the scripted histories force their order themselves and are explored at bound 1 in the thorough tier
+        let mut seen = std::collections::BTreeSet::new();
+        cases.retain(|c| {
+            if c.bound == 0 {
+                return true;
+            }
+            if c.history.ends_with("-scripted") {
+                return false;
+            }
+            if c.readers.len() == 2 {
+                return matches!(c.history.as_str(), "none" | "pack-loose");
+            }
+            seen.insert(c.history.clone())
+        });
     }
     if let Ok(only) = std::env::var("VERIF_C12_ONLY") {
         // development aid: restrict to one history (reported as a cap)
